@@ -13,8 +13,6 @@ fn unit(x: f32) -> bool {
 /// RGB -> HSL (f32, scalar path): every component of the result is finite for every in-range RGB colour
 /// @fn <Hsl<Srgb,f32> as FromColorUnclamped<Rgb<Srgb,f32>>>::from_color_unclamped
 /// @bound all f32 components in {0, 1} or [1e-9, 1 - 1e-9]
-/// @thorough
-/// @witness c07_rgb_to_hsl_f32_rounding
 #[kani::proof]
 pub fn c07_rgb_to_hsl_f32_finite() {
     let (r, g, b): (f32, f32, f32) = (kani::any(), kani::any(), kani::any());
@@ -27,7 +25,6 @@ pub fn c07_rgb_to_hsl_f32_finite() {
 /// RGB -> HSV (f32, scalar path): every component of the result is finite for every in-range RGB colour
 /// @fn <Hsv<Srgb,f32> as FromColorUnclamped<Rgb<Srgb,f32>>>::from_color_unclamped
 /// @bound all f32 components in {0, 1} or [1e-9, 1 - 1e-9]
-/// @thorough
 #[kani::proof]
 pub fn c07_rgb_to_hsv_f32_finite() {
     let (r, g, b): (f32, f32, f32) = (kani::any(), kani::any(), kani::any());
@@ -41,7 +38,6 @@ pub fn c07_rgb_to_hsv_f32_finite() {
 /// @fn <Hsl<Srgb,f32> as FromColorUnclamped<Hsv<Srgb,f32>>>::from_color_unclamped
 /// @fn <Hsv<Srgb,f32> as FromColorUnclamped<Hsl<Srgb,f32>>>::from_color_unclamped
 /// @bound all f32 components in {0, 1} or [1e-9, 1 - 1e-9]; hue fixed (passes through)
-/// @thorough
 #[kani::proof]
 pub fn c07_hsv_hsl_f32_finite() {
     let (a, b): (f32, f32) = (kani::any(), kani::any());
@@ -56,7 +52,6 @@ pub fn c07_hsv_hsl_f32_finite() {
 /// HWB -> HSV (f32): finite results for whiteness, blackness in range with whiteness + blackness <= 1
 /// @fn <Hsv<Srgb,f32> as FromColorUnclamped<Hwb<Srgb,f32>>>::from_color_unclamped
 /// @bound all f32 components in {0, 1} or [1e-9, 1 - 1e-9], w + b <= 1
-/// @thorough
 #[kani::proof]
 pub fn c07_hwb_to_hsv_f32_finite() {
     let (w, b): (f32, f32) = (kani::any(), kani::any());
@@ -70,7 +65,6 @@ pub fn c07_hwb_to_hsv_f32_finite() {
 /// @fn <Yxy<D65,f32> as FromColorUnclamped<Xyz<D65,f32>>>::from_color_unclamped
 /// @fn <Xyz<D65,f32> as FromColorUnclamped<Yxy<D65,f32>>>::from_color_unclamped
 /// @bound all f32 components in {0, 1} or [1e-9, 1 - 1e-9]
-/// @thorough
 #[kani::proof]
 pub fn c07_xyz_yxy_f32_finite() {
     let (a, b, c): (f32, f32, f32) = (kani::any(), kani::any(), kani::any());
@@ -95,3 +89,64 @@ pub fn c07_is_valid_divisor_is_normal() {
     if y.is_normal() { assert!(y.is_valid_divisor()); }
     if y == 0.0 || y.is_nan() || y.is_infinite() { assert!(!y.is_valid_divisor()); }
 }
+
+/// xyY -> XYZ (f32): finite results (y = 0 included)
+/// @fn <Xyz<D65,f32> as FromColorUnclamped<Yxy<D65,f32>>>::from_color_unclamped
+/// @bound all f32 components in {0, 1} or [1e-9, 1 - 1e-9]
+#[kani::proof]
+pub fn c07_yxy_to_xyz_f32_finite() {
+    let (a, b, c): (f32, f32, f32) = (kani::any(), kani::any(), kani::any());
+    kani::assume(unit(a) && unit(b) && unit(c));
+    kani::cover!(true);
+    let x = Xyz::<palette::white_point::D65, f32>::from_color_unclamped(Yxy::<palette::white_point::D65, f32>::new(a, b, c));
+    assert!(x.x.is_finite() && x.y.is_finite() && x.z.is_finite());
+}
+
+/// HSV -> HWB and HWB -> HSV -> HWB (f32): finite results
+/// @fn <Hwb<Srgb,f32> as FromColorUnclamped<Hsv<Srgb,f32>>>::from_color_unclamped
+/// @bound all f32 components in {0, 1} or [1e-9, 1 - 1e-9]
+#[kani::proof]
+pub fn c07_hsv_to_hwb_f32_finite() {
+    let (s, v): (f32, f32) = (kani::any(), kani::any());
+    kani::assume(unit(s) && unit(v));
+    kani::cover!(true);
+    let x = Hwb::<Srgb, f32>::from_color_unclamped(Hsv::<Srgb, f32>::new(30.0, s, v));
+    assert!(x.whiteness.is_finite() && x.blackness.is_finite());
+}
+
+/// colour dodge (guarded division by 1 - source) and the unpremultiplied result are finite for every in-range source / destination colour and alpha, f32 (zero alpha and colour = 1 included)
+/// @fn <Alpha<LinSrgb<f32>,f32> as Blend>::dodge
+/// @fn Premultiply::premultiply, Premultiply::unpremultiply, blend::blend::dodge_blend
+/// @bound all f32 components in {0, 1} or [1e-9, 1 - 1e-9]; the three colour channels carry the same value
+/// @thorough
+#[kani::proof]
+pub fn c07_blend_dodge_f32_finite() {
+    use palette::blend::Blend;
+    use palette::{Alpha, LinSrgb};
+    let (s, sa, d, da): (f32, f32, f32, f32) = (kani::any(), kani::any(), kani::any(), kani::any());
+    kani::assume(unit(s) && unit(sa) && unit(d) && unit(da));
+    kani::cover!(true);
+    let a = Alpha { color: LinSrgb::new(s, s, s), alpha: sa };
+    let b = Alpha { color: LinSrgb::new(d, d, d), alpha: da };
+    let r = a.dodge(b);
+    assert!(r.color.red.is_finite() && r.alpha.is_finite());
+}
+
+/// colour burn (guarded division by the source) and the unpremultiplied result are finite for every in-range source / destination colour and alpha, f32 (zero alpha and colour = 0 included)
+/// @fn <Alpha<LinSrgb<f32>,f32> as Blend>::burn
+/// @fn Premultiply::premultiply, Premultiply::unpremultiply, blend::blend::burn_blend
+/// @bound all f32 components in {0, 1} or [1e-9, 1 - 1e-9]; the three colour channels carry the same value
+/// @thorough
+#[kani::proof]
+pub fn c07_blend_burn_f32_finite() {
+    use palette::blend::Blend;
+    use palette::{Alpha, LinSrgb};
+    let (s, sa, d, da): (f32, f32, f32, f32) = (kani::any(), kani::any(), kani::any(), kani::any());
+    kani::assume(unit(s) && unit(sa) && unit(d) && unit(da));
+    kani::cover!(true);
+    let a = Alpha { color: LinSrgb::new(s, s, s), alpha: sa };
+    let b = Alpha { color: LinSrgb::new(d, d, d), alpha: da };
+    let r = a.burn(b);
+    assert!(r.color.red.is_finite() && r.alpha.is_finite());
+}
+
